@@ -932,6 +932,9 @@ static void handle_syscall_stop(struct thr *t)
             else t->untimed = 1;
         }
         log_event(t, 0, 0, act, rid);
+        /* close: forget the descriptor at *entry*.  Exit stops of different threads are not reported in kernel
+           order, so another thread's openat() returning the same number may be seen before this close's exit. */
+        if (t->p.se && t->p.se->nr == 3 && !t->p.fault_errno) fd_set_closed((int)a[0]);
         if (should_hold(t)) {
             t->state = T_HELD; now(&t->held_at); t->held_seq = seq; holds++;
             return;
@@ -960,9 +963,6 @@ static void handle_syscall_stop(struct thr *t)
                 fd_set_open(t->tid, (int)ret, p->have_path ? p->path : NULL);
                 p->fd = (int)ret; /* so that the exit record carries the object identity */
                 if ((fd_checks < 20 || (nstops % 4096) < 2)) fd_crosscheck(root_pid);
-            } else if (nr == 3) {
-                log_event(t, 1, ret, act, rid); logged = 1;
-                if (ret == 0 || ret == -EINTR || ret == -EIO) fd_set_closed((int)p->a[0]);
             } else if ((nr == 32) && ret >= 0) fd_set_open(t->tid, (int)ret, fd_path((int)p->a[0]));
             else if ((nr == 33 || nr == 292) && ret >= 0) fd_set_open(t->tid, (int)ret, fd_path((int)p->a[0]));
             else if (nr == 72 && ret >= 0 && (p->a[1] == F_DUPFD || p->a[1] == F_DUPFD_CLOEXEC)) fd_set_open(t->tid, (int)ret, fd_path((int)p->a[0]));
